@@ -116,6 +116,14 @@ def _judge_impl(n, mb, D, sd, arrays, k, l, default_devices, jnp):
     if npad >= bs:
         classes.append("whole-batch-of-padding")
     if arrays:
+        # first use of the processor: a FLOAT array (then integers below): layout and values must not depend on earlier calls
+        stf = np.arange(n * sd, dtype=np.float64).reshape(n, sd) + 0.5
+        try:
+            bf = np.asarray(bp.prepare_batches(jnp.asarray(stf)))
+        except Exception as e:
+            return verdict_fail(sut_bucket(e), f"prepare_batches raised {e!r}; {info}")
+        if bf.shape != (nd, nb, bs, sd) or not np.array_equal(bf.reshape(-1, sd)[:n].astype(np.float64), np.asarray(jnp.asarray(stf)).astype(np.float64)):
+            return verdict_fail("states-not-in-order", f"{info} (float state array)")
         states = (np.arange(n * sd, dtype=np.int32).reshape(n, sd) + 1)
         try:
             b = np.asarray(bp.prepare_batches(jnp.asarray(states)))
